@@ -342,9 +342,9 @@ def step (d : DState) (l : Line) : DState × List Verdict :=
         -- same transactions, same tip): provably not the host's transaction; pool_refused: a fresh pool refuses one, too;
         -- catchup_refused: sets were only refused while the processed index was behind the chain tip
         let vs : List Verdict := bad.map fun (i, st, _, sec, _, _, refused, rc, fund, last, okv, badv) =>
-          let cls := if fund > 0 then "/no_funds"
-            else if badv > 0 then "/pool_refused"
+          let cls := if badv > 0 then "/pool_refused"
             else if okv > 0 then "/pool_state"
+            else if fund > 0 then "/no_funds"
             else if refused > 0 then "/catchup_refused"
             else if !rc then "/revision_lost_in_reorg" else ""
           .monitor ("c06/ends_successful" ++ cls) s!"c{i}:status={st},sectors={sec},pool_refusals={refused},refused_at_tip_fresh_pool_accepts={okv},refused_at_tip_fresh_pool_refuses={badv},fund_failures={fund},revision_confirmed={rc},last_rejection={last}"
